@@ -635,11 +635,28 @@ def _(e, c, a):
 def _(e, c, a): return RVec([Cell(x) for x in it_of(a[0])])
 
 
-@model(r'Itertools>::unique$|Itertools>::dedup$')
+@model(r'Itertools>::unique$')
 def _(e, c, a):
     out = []
     for x in it_of(a[0]):
-        if not any(veq(x, y) is True for y in out): out.append(x)
+        if not any(e.branch(veq(x, y)) for y in out): out.append(x)
+    return PyIter(out)
+
+
+@model(r'Itertools>::dedup$')
+def _(e, c, a):
+    # consecutive equal elements collapse into the first of the run
+    out = []
+    for x in it_of(a[0]):
+        if not (out and e.branch(veq(out[-1], x))): out.append(x)
+    return PyIter(out)
+
+
+@model(r'Itertools>::dedup_by$')
+def _(e, c, a):
+    out = []
+    for x in it_of(a[0]):
+        if not (out and e.branch(e.call_fn_value(a[1], [Ref(Cell(out[-1])), Ref(Cell(x))]))): out.append(x)
     return PyIter(out)
 
 
